@@ -8,7 +8,7 @@ use std::time::Duration;
 
 use emit::runtime::AmbientSlot;
 use emit::{Clock, Ctxt, Emitter, Filter, Props, Rng as _};
-use hcommon::{Rng, Sexp, Stream, Tier};
+use hcommon::{catch, Rng, Sexp, Stream, Tier};
 
 pub fn streams() -> Vec<Stream> {
     vec![
@@ -395,6 +395,13 @@ fn run_global(line: &str) -> String {
     (|| -> Option<String> {
         let s = Sexp::parse(line)?;
         let (tag, a) = s.as_tagged()?;
+        if tag == "gseq" {
+            let plan = a.iter().map(gop).collect::<Option<Vec<_>>>()?;
+            if USED.swap(true, Ordering::SeqCst) {
+                return Some("<process-already-used>".into());
+            }
+            return Some(run_gseq(plan));
+        }
         if tag != "global" || a.len() != 2 {
             return None;
         }
@@ -455,7 +462,462 @@ fn run_global(line: &str) -> String {
     .unwrap_or_else(|| "bad-case".into())
 }
 
-fn gen_global(rng: &mut Rng, _tier: Tier, _n: usize) -> Vec<String> {
+fn gen_global(rng: &mut Rng, tier: Tier, _n: usize) -> Vec<String> {
     // both orders; the check runs every case of this stream in its own process (`per_case_process`)
-    vec![format!("(global shared-first {})", 2 + rng.usize(7)), format!("(global internal-first {})", 2 + rng.usize(7))]
+    let mut out =
+        vec![format!("(global shared-first {})", 2 + rng.usize(7)), format!("(global internal-first {})", 2 + rng.usize(7))];
+    // sequential scripts through the public front doors of the global slots
+    let n = if tier == Tier::Thorough { 60 } else { 14 };
+    for i in 0..n {
+        out.push(gen_gseq(rng, i));
+    }
+    out
+}
+
+// ------------------------------------------------------------------ the global slots through the public front doors
+//
+// (gseq OP…) — one process per case. Everything goes through what an application calls: the macros WITHOUT `rt:`
+// (they expand to `emit::runtime::shared()`), `emit::emitter()/filter()/ctxt()/clock()/rng()`,
+// `emit::blocking_flush()`, `Setup::init()` / `init_internal()` (panicking forms, caught), `Init::flush_on_drop`.
+//   OP ::= (init I F) | (tryinit I F) | (initguard I F T) | dropguard | (initint I F) | (tryinitint I F)
+//        | (emit E LM) | (span E LM) | (rtemit E LM) | (direct E LM) | (emitint E LM) | (flush T) | obs
+//   F  ::= all | none | (minlvl LEVEL) | (idge N)        LM ::= plain | debug | info | warn | error
+// Output: one token per op, then what every configuration's emitter received `(cfg id lvl amb clocked|bare)` and every flush
+// it saw `(cfg timeout_ns)`. See lean/EmitModel/Driver/C20.lean.
+
+use emit::Level;
+
+#[derive(Clone)]
+enum FSpec {
+    All,
+    None,
+    MinLvl(Level),
+    IdGe(i64),
+}
+
+enum GOp {
+    Init(u64, FSpec),
+    TryInit(u64, FSpec),
+    InitGuard(u64, FSpec, u64),
+    DropGuard,
+    InitInt(u64, FSpec),
+    TryInitInt(u64, FSpec),
+    Emit(i64, Option<Level>),
+    Span(i64, Option<Level>),
+    RtEmit(i64, Option<Level>),
+    Direct(i64, Option<Level>),
+    EmitInt(i64, Option<Level>),
+    Flush(u64),
+    Obs,
+}
+
+fn glevel(s: &Sexp) -> Option<Level> {
+    Some(match s.as_atom()? {
+        "debug" => Level::Debug,
+        "info" => Level::Info,
+        "warn" => Level::Warn,
+        "error" => Level::Error,
+        _ => return None,
+    })
+}
+
+fn glm(s: &Sexp) -> Option<Option<Level>> {
+    if s.as_atom()? == "plain" {
+        Some(None)
+    } else {
+        glevel(s).map(Some)
+    }
+}
+
+fn fspec(s: &Sexp) -> Option<FSpec> {
+    match s.as_atom() {
+        Some("all") => return Some(FSpec::All),
+        Some("none") => return Some(FSpec::None),
+        Some(_) => return None,
+        None => {}
+    }
+    match s.as_tagged()? {
+        ("minlvl", [l]) => Some(FSpec::MinLvl(glevel(l)?)),
+        ("idge", [n]) => Some(FSpec::IdGe(n.as_u64()? as i64)),
+        _ => None,
+    }
+}
+
+fn gop(s: &Sexp) -> Option<GOp> {
+    match s.as_atom() {
+        Some("dropguard") => return Some(GOp::DropGuard),
+        Some("obs") => return Some(GOp::Obs),
+        Some(_) => return None,
+        None => {}
+    }
+    let id = |s: &Sexp| s.as_u64().filter(|n| *n < 1_000_000).map(|n| n as i64);
+    Some(match s.as_tagged()? {
+        ("init", [i, f]) => GOp::Init(i.as_u64()?, fspec(f)?),
+        ("tryinit", [i, f]) => GOp::TryInit(i.as_u64()?, fspec(f)?),
+        ("initguard", [i, f, t]) => GOp::InitGuard(i.as_u64()?, fspec(f)?, t.as_u64()?),
+        ("initint", [i, f]) => GOp::InitInt(i.as_u64()?, fspec(f)?),
+        ("tryinitint", [i, f]) => GOp::TryInitInt(i.as_u64()?, fspec(f)?),
+        ("emit", [e, l]) => GOp::Emit(id(e)?, glm(l)?),
+        ("span", [e, l]) => GOp::Span(id(e)?, glm(l)?),
+        ("rtemit", [e, l]) => GOp::RtEmit(id(e)?, glm(l)?),
+        ("direct", [e, l]) => GOp::Direct(id(e)?, glm(l)?),
+        ("emitint", [e, l]) => GOp::EmitInt(id(e)?, glm(l)?),
+        ("flush", [t]) => GOp::Flush(t.as_u64()?),
+        _ => return None,
+    })
+}
+
+/// What a configuration's emitter saw: (cfg, event id, level text, the ambient `cfg` property).
+type GLog = Arc<Mutex<(Vec<(u64, i64, String, Option<u64>, bool)>, Vec<(u64, u128)>)>>;
+
+/// Flushing succeeds when the timeout is at least this many nanoseconds (so the result depends on the argument).
+const FLUSH_NEEDS_NS: u128 = 500;
+
+struct GEmitter(u64, GLog);
+impl Emitter for GEmitter {
+    fn emit<E: emit::event::ToEvent>(&self, evt: E) {
+        let evt = evt.to_event();
+        let id = evt.props().pull::<i64, _>("id").unwrap_or(i64::MIN);
+        let lvl = evt.props().pull::<Level, _>("lvl").map(|l| l.to_string()).unwrap_or_else(|| "none".into());
+        let amb = evt.props().pull::<u64, _>("cfg");
+        // the events of this stream carry no extent of their own: one that arrives with an extent got it from
+        // the runtime's clock (a point for events, the timer's range for spans)
+        let clocked = evt.extent().is_some();
+        self.1.lock().unwrap().0.push((self.0, id, lvl, amb, clocked));
+    }
+    fn blocking_flush(&self, timeout: Duration) -> bool {
+        self.1.lock().unwrap().1.push((self.0, timeout.as_nanos()));
+        timeout.as_nanos() >= FLUSH_NEEDS_NS
+    }
+}
+
+struct GFilter(u64, FSpec);
+impl Filter for GFilter {
+    fn matches<E: emit::event::ToEvent>(&self, evt: E) -> bool {
+        LAST_FILTER.with(|c| c.set(Some(self.0)));
+        let evt = evt.to_event();
+        match &self.1 {
+            FSpec::All => true,
+            FSpec::None => false,
+            // the library's own level filter
+            FSpec::MinLvl(l) => emit::level::min_filter(*l).matches(&evt),
+            FSpec::IdGe(n) => evt.props().pull::<i64, _>("id").map(|i| i >= *n).unwrap_or(false),
+        }
+    }
+}
+
+/// A user `Ctxt` with real frames (only the required methods): the ambient properties are `cfg = <configuration>`
+/// plus whatever the entered frame carries.
+#[derive(Clone)]
+enum GV {
+    I(i64),
+    S(String),
+}
+struct GProps(Vec<(String, GV)>);
+impl Props for GProps {
+    fn for_each<'kv, F: FnMut(emit::Str<'kv>, emit::Value<'kv>) -> std::ops::ControlFlow<()>>(
+        &'kv self,
+        mut for_each: F,
+    ) -> std::ops::ControlFlow<()> {
+        for (k, v) in &self.0 {
+            let v = match v {
+                GV::I(i) => emit::Value::from(*i),
+                GV::S(s) => emit::Value::from(s.as_str()),
+            };
+            for_each(emit::Str::new_ref(k), v)?;
+        }
+        std::ops::ControlFlow::Continue(())
+    }
+}
+struct GCtxt {
+    base: GProps,
+    cur: Mutex<Option<Vec<(String, GV)>>>,
+}
+impl GCtxt {
+    fn new(cfg: u64) -> Self {
+        GCtxt { base: GProps(vec![("cfg".into(), GV::I(cfg as i64))]), cur: Mutex::new(None) }
+    }
+}
+impl Ctxt for GCtxt {
+    type Current = GProps;
+    type Frame = Option<Vec<(String, GV)>>;
+    fn open_root<P: Props>(&self, props: P) -> Self::Frame {
+        let mut v = Vec::new();
+        let _ = props.for_each(|k, val| {
+            let gv = match val.by_ref().cast::<i64>() {
+                Some(i) => GV::I(i),
+                None => GV::S(val.to_string()),
+            };
+            v.push((k.get().to_string(), gv));
+            std::ops::ControlFlow::Continue(())
+        });
+        Some(v)
+    }
+    fn enter(&self, frame: &mut Self::Frame) {
+        std::mem::swap(&mut *self.cur.lock().unwrap(), frame);
+    }
+    fn with_current<R, F: FnOnce(&Self::Current) -> R>(&self, with: F) -> R {
+        let cur = self.cur.lock().unwrap().clone();
+        match cur {
+            Some(v) => with(&GProps(v)),
+            None => with(&self.base),
+        }
+    }
+    fn exit(&self, frame: &mut Self::Frame) {
+        std::mem::swap(&mut *self.cur.lock().unwrap(), frame);
+    }
+    fn close(&self, _: Self::Frame) {}
+}
+
+type GSetup = emit::Setup<GEmitter, GFilter, GCtxt, CfgClock, CfgRng>;
+fn gsetup(cfg: u64, f: &FSpec, log: &GLog) -> GSetup {
+    emit::setup()
+        .emit_to(GEmitter(cfg, log.clone()))
+        .emit_when(GFilter(cfg, f.clone()))
+        .with_ctxt(GCtxt::new(cfg))
+        .with_clock(CfgClock(cfg))
+        .with_rng(CfgRng(cfg))
+}
+
+type GSetupInt = emit::Setup<
+    emit::runtime::AssertInternal<GEmitter>,
+    emit::runtime::AssertInternal<GFilter>,
+    emit::runtime::AssertInternal<GCtxt>,
+    emit::runtime::AssertInternal<CfgClock>,
+    emit::runtime::AssertInternal<CfgRng>,
+>;
+fn gsetup_int(cfg: u64, f: &FSpec, log: &GLog) -> GSetupInt {
+    use emit::runtime::AssertInternal as A;
+    emit::setup()
+        .emit_to(A(GEmitter(cfg, log.clone())))
+        .emit_when(A(GFilter(cfg, f.clone())))
+        .with_ctxt(A(GCtxt::new(cfg)))
+        .with_clock(A(CfgClock(cfg)))
+        .with_rng(A(CfgRng(cfg)))
+}
+
+// ---- the static call sites: macros WITHOUT `rt:`
+
+fn g_emit(l: Option<Level>, id: i64) {
+    match l {
+        None => emit::emit!("g {id}"),
+        Some(Level::Debug) => emit::debug!("g {id}"),
+        Some(Level::Info) => emit::info!("g {id}"),
+        Some(Level::Warn) => emit::warn!("g {id}"),
+        Some(Level::Error) => emit::error!("g {id}"),
+    }
+}
+
+#[emit::span("gs {id}")]
+fn gs_plain(id: i64) {}
+#[emit::debug_span("gs {id}")]
+fn gs_debug(id: i64) {}
+#[emit::info_span("gs {id}")]
+fn gs_info(id: i64) {}
+#[emit::warn_span("gs {id}")]
+fn gs_warn(id: i64) {}
+fn gs_error(id: i64) {
+    // the `new_*_span!` form without `rt:`
+    let (mut guard, frame) = emit::new_error_span!("gs {id}");
+    frame.call(move || {
+        guard.start();
+        drop(guard);
+    })
+}
+
+fn g_span(l: Option<Level>, id: i64) {
+    match l {
+        None => gs_plain(id),
+        Some(Level::Debug) => gs_debug(id),
+        Some(Level::Info) => gs_info(id),
+        Some(Level::Warn) => gs_warn(id),
+        Some(Level::Error) => gs_error(id),
+    }
+}
+
+/// A hand-built event (id, optional typed level), for the entry points that take a value.
+fn with_gevent<R>(id: i64, l: Option<Level>, f: impl FnOnce(&emit::Event<&[(&str, emit::Value)]>) -> R) -> R {
+    let mut props: Vec<(&str, emit::Value)> = vec![("id", emit::Value::from(id))];
+    let lv;
+    if let Some(l) = l {
+        lv = l;
+        props.push(("lvl", emit::Value::capture_display(&lv)));
+    }
+    f(&emit::Event::new(emit::Path::new_raw("c20"), emit::Template::literal("c20"), emit::Empty, &props[..]))
+}
+
+fn run_gseq(plan: Vec<GOp>) -> String {
+    let log: GLog = Arc::new(Mutex::new((Vec::new(), Vec::new())));
+    let mut guards: Vec<emit::setup::InitGuard<'static, GEmitter, GCtxt>> = Vec::new();
+    let mut outs = Vec::new();
+    let mut fails: Vec<String> = Vec::new();
+    // which configuration received event `id` since `from`
+    let to = |log: &GLog, from: usize, id: i64| -> String {
+        let l = log.lock().unwrap();
+        let hits: Vec<u64> = l.0[from..].iter().filter(|r| r.1 == id).map(|r| r.0).collect();
+        match hits[..] {
+            [] => "to=none".into(),
+            [c] => format!("to={}", c),
+            _ => format!("to=many{:?}", hits),
+        }
+    };
+    for op in plan {
+        let from = log.lock().unwrap().0.len();
+        let out = match op {
+            GOp::Init(i, f) => match catch(|| gsetup(i, &f, &log).init()) {
+                Some(init) => {
+                    // the handle shows the winner's own components
+                    if init.emitter().0 != i || init.ctxt().base.0.len() != 1 {
+                        fails.push("init-handle-shows-other-components".into());
+                    }
+                    "init=ok".to_string()
+                }
+                None => "init=panic".into(),
+            },
+            GOp::TryInit(i, f) => format!("tryinit={}", gsetup(i, &f, &log).try_init().is_some()),
+            GOp::InitGuard(i, f, t) => match catch(|| gsetup(i, &f, &log).init()) {
+                Some(init) => {
+                    let g = init.flush_on_drop(Duration::from_nanos(t));
+                    if g.inner().emitter().0 != i {
+                        fails.push("guard-inner-shows-other-components".into());
+                    }
+                    guards.push(g);
+                    "initguard=ok".to_string()
+                }
+                None => "initguard=panic".into(),
+            },
+            GOp::DropGuard => {
+                guards.clear();
+                "dropguard".into()
+            }
+            GOp::InitInt(i, f) => match catch(|| gsetup_int(i, &f, &log).init_internal()) {
+                Some(_) => "initint=ok".to_string(),
+                None => "initint=panic".into(),
+            },
+            GOp::TryInitInt(i, f) => format!("tryinitint={}", gsetup_int(i, &f, &log).try_init_internal().is_some()),
+            GOp::Emit(e, l) => {
+                g_emit(l, e);
+                to(&log, from, e)
+            }
+            GOp::Span(e, l) => {
+                g_span(l, e);
+                to(&log, from, e)
+            }
+            GOp::RtEmit(e, l) => {
+                with_gevent(e, l, |evt| emit::runtime::shared().emit(evt));
+                to(&log, from, e)
+            }
+            GOp::Direct(e, l) => {
+                with_gevent(e, l, |evt| emit::emitter().emit(evt));
+                to(&log, from, e)
+            }
+            GOp::EmitInt(e, l) => {
+                with_gevent(e, l, |evt| emit::runtime::internal().emit(evt));
+                to(&log, from, e)
+            }
+            GOp::Flush(t) => format!("flush={}", emit::blocking_flush(Duration::from_nanos(t))),
+            GOp::Obs => {
+                // the five global accessors
+                let e = {
+                    with_gevent(-7, None, |evt| emit::emitter().emit(evt));
+                    let mut l = log.lock().unwrap();
+                    let c = l.0[from..].iter().find(|r| r.1 == -7).map(|r| r.0);
+                    l.0.truncate(from);
+                    c
+                };
+                LAST_FILTER.with(|c| c.set(None));
+                let _ = with_gevent(-7, None, |evt| emit::filter().matches(evt));
+                let f = LAST_FILTER.with(|c| c.get());
+                let c = emit::ctxt().with_current(|p| p.pull::<u64, _>("cfg"));
+                let t = emit::clock().now().map(|t| t.to_unix().as_secs());
+                let r = emit::rng().gen_u64();
+                let o = [e, f, c, t, r];
+                if o.iter().all(|x| x.is_none()) {
+                    "comp=empty".to_string()
+                } else {
+                    let f = |x: Option<u64>| x.map(|v| v.to_string()).unwrap_or("none".into());
+                    format!("comp=({},{},{},{},{})", f(o[0]), f(o[1]), f(o[2]), f(o[3]), f(o[4]))
+                }
+            }
+        };
+        outs.push(out);
+    }
+    // live guards are leaked, not dropped: only `dropguard` flushes
+    std::mem::forget(guards);
+    let l = log.lock().unwrap();
+    let recv: Vec<String> = l
+        .0
+        .iter()
+        .map(|(c, id, lvl, amb, clocked)| {
+            let amb = amb.map(|a| a.to_string()).unwrap_or("none".into());
+            format!("({} {} {} {} {})", c, id, lvl, amb, if *clocked { "clocked" } else { "bare" })
+        })
+        .collect();
+    let fl: Vec<String> = l.1.iter().map(|(c, t)| format!("({} {})", c, t)).collect();
+    let out = format!("{} recv=({}) flushes=({})", outs.join(" "), recv.join(" "), fl.join(" "));
+    if fails.is_empty() {
+        out
+    } else {
+        format!("{}\tFAIL:{}", out, fails.join("+"))
+    }
+}
+
+fn gen_fspec(rng: &mut Rng) -> Sexp {
+    match rng.below(6) {
+        0 | 1 => Sexp::atom("all"),
+        2 => Sexp::atom("none"),
+        3 | 4 => Sexp::tagged("minlvl", vec![Sexp::atom(*rng.pick(&["debug", "info", "warn", "error"]))]),
+        _ => Sexp::tagged("idge", vec![Sexp::num(rng.below(12))]),
+    }
+}
+
+fn gen_gseq(rng: &mut Rng, k: usize) -> String {
+    let len = 6 + rng.usize(14);
+    // a stretch before any initialisation (sometimes the whole script), then initialisers mixed in
+    let first_init = if k % 5 == 4 { len } else { rng.usize(len / 2 + 1) };
+    let mut next_e = 0u64;
+    let mut next_i = 0u64;
+    let mut ops = Vec::new();
+    let lm = |rng: &mut Rng| Sexp::atom(*rng.pick(&["plain", "debug", "info", "warn", "error"]));
+    for i in 0..len {
+        let mut ev = |rng: &mut Rng, tag: &str| {
+            next_e += 1;
+            Sexp::tagged(tag, vec![Sexp::num(next_e), lm(rng)])
+        };
+        // at the first initialisation point an initialiser for sure, afterwards one op in four
+        let pick = if i < first_init {
+            rng.below(9)
+        } else if i == first_init || rng.chance(1, 4) {
+            9 + rng.below(5)
+        } else {
+            rng.below(9)
+        };
+        let op = match pick {
+            0 | 1 => ev(rng, "emit"),
+            2 => ev(rng, "span"),
+            3 => ev(rng, "rtemit"),
+            4 => ev(rng, "direct"),
+            5 => ev(rng, "emitint"),
+            6 => Sexp::tagged("flush", vec![Sexp::num(*rng.pick(&[0u64, 1, 499, 500, 501, 1_000_000]))]),
+            7 => Sexp::atom("obs"),
+            8 => Sexp::atom("dropguard"),
+            n => {
+                next_i += 1;
+                let tag = match n {
+                    9 => "init",
+                    10 => "tryinit",
+                    11 => "initguard",
+                    12 => "initint",
+                    _ => "tryinitint",
+                };
+                let mut a = vec![Sexp::num(next_i), gen_fspec(rng)];
+                if tag == "initguard" {
+                    a.push(Sexp::num(*rng.pick(&[0u64, 499, 500, 7_000])));
+                }
+                Sexp::tagged(tag, a)
+            }
+        };
+        ops.push(op);
+    }
+    Sexp::tagged("gseq", ops).to_string()
 }
